@@ -67,6 +67,7 @@ type teiRecord struct {
 	pos   string
 	ptr   *tak.Position
 	infos []string
+	dl    string // the duration handed to context.WithTimeout while this command ran ("-": none)
 }
 
 type teiRun struct {
@@ -80,8 +81,11 @@ func teiConfig(depth int) func(size int) ai.MinimaxConfig {
 	}
 }
 
-// runTEI feeds the stream to a fresh engine and records output and state after every line.
-func runTEI(depth int, stream []byte) (res teiRun) {
+// runTEI feeds the stream to a fresh engine and records output, state and installed deadline after every line.
+// detach: record the deadlines but do not let them act (deterministic output for tiny budgets).
+func runTEI(depth int, stream []byte, detach bool) (res teiRun) {
+	dls := &tei.VerifDeadlines{Detach: detach}
+	seenDl := 0
 	var out bytes.Buffer
 	chunks := splitStream(stream)
 	nlines := len(chunks)
@@ -103,6 +107,14 @@ func runTEI(depth int, stream []byte) (res teiRun) {
 		} else {
 			rec.pos = dumpPos(pos)
 		}
+		rec.dl = "-"
+		if len(dls.Installed) > seenDl {
+			rec.dl = strconv.FormatInt(dls.Installed[len(dls.Installed)-1], 10)
+			if len(dls.Installed) > seenDl+1 {
+				rec.dl += "!multiple"
+			}
+			seenDl = len(dls.Installed)
+		}
 		res.records = append(res.records, rec)
 		taken++
 	}
@@ -121,7 +133,7 @@ func runTEI(depth int, stream []byte) (res teiRun) {
 				res.class = "panic"
 			}
 		}()
-		err := e.Run(context.Background())
+		err := e.Run(tei.VerifRecording(context.Background(), dls))
 		if err != nil {
 			res.class = "err"
 		} else {
@@ -145,7 +157,14 @@ func canonInfo(line string) string {
 
 func (r teiRun) render(classOnly bool) string {
 	if classOnly {
-		return r.class
+		// outcome class and the deadline installed by each command (both independent of the wall clock)
+		var b strings.Builder
+		b.WriteString(r.class)
+		for _, rec := range r.records {
+			b.WriteString(" ")
+			b.WriteString(rec.dl)
+		}
+		return b.String()
 	}
 	var b strings.Builder
 	b.WriteString(r.class)
@@ -162,6 +181,8 @@ func (r teiRun) render(classOnly bool) string {
 		b.WriteString(strconv.Itoa(b2i(rec.mm)))
 		b.WriteByte(' ')
 		b.WriteString(strconv.Itoa(rec.size))
+		b.WriteString(" dl=")
+		b.WriteString(rec.dl)
 		b.WriteByte(' ')
 		if rec.pos == prev && rec.pos != "nil" {
 			b.WriteString("=")
@@ -240,7 +261,7 @@ func teiTable(depth int, stream []byte, withOracle bool) string {
 		}
 	}
 	if withOracle {
-		run := runTEI(depth, stream)
+		run := runTEI(depth, stream, true)
 		for k, rec := range run.records {
 			for _, l := range rec.out {
 				f := strings.Fields(l)
@@ -291,9 +312,9 @@ func init() {
 		return strconv.FormatInt(tei.VerifCalcBudget(mt, gt, inc), 10)
 	}
 	opTable["tei"] = func(s *Session, a []string) string {
-		return runTEI(atoi(a[0]), unhexOrDash(a[1])).render(false)
+		return runTEI(atoi(a[0]), unhexOrDash(a[1]), true).render(false)
 	}
 	opTable["teiclass"] = func(s *Session, a []string) string {
-		return runTEI(atoi(a[0]), unhexOrDash(a[1])).render(true)
+		return runTEI(atoi(a[0]), unhexOrDash(a[1]), false).render(true)
 	}
 }
